@@ -196,7 +196,7 @@ func drawGenerated(t *rapid.T) (*program, string) {
 	} else {
 		inputs = map[string]*lang.Val{}
 	}
-	o := gen.Opts{MaxStmts: 10, MaxDepth: 3, NoTime: true, ControlHeavy: uniform(t, "controlHeavy", 3) > 0}
+	o := gen.Opts{MaxStmts: 10, MaxDepth: 3, NoTime: true, NoMapIter: true, ControlHeavy: uniform(t, "controlHeavy", 3) > 0}
 	if uniform(t, "withModules", 6) == 0 {
 		o.Modules = []string{"m1"}
 	}
@@ -204,6 +204,11 @@ func drawGenerated(t *rapid.T) (*program, string) {
 	out, why := refx.Stable(lp, inputs, ref.DefaultConfig())
 	if why != "" {
 		return nil, why
+	}
+	if out.Stats.MapIters > 0 {
+		// Go map order decides which element fails first and how many
+		// instructions run: the run has no single "own result"
+		return nil, "excluded:iterates a map with >= 2 keys"
 	}
 	if out.Status == "compile-error" {
 		return nil, "excluded:compile-error (reference agrees)"
